@@ -233,6 +233,45 @@ func giBytes(fn *ssa.Function, v ssa.Value, flag bool, flagIf *ssa.If, d int) ([
 		if x.Value == nil {
 			return nil, ""
 		}
+	case *ssa.MakeSlice:
+		if n, ok := core.ConstInt(x.Len); ok && n == 0 {
+			return nil, ""
+		}
+	case *ssa.Slice:
+		// make([]byte, 0, n) with a constant n
+		if _, ok := x.X.(*ssa.Alloc); ok && x.Low == nil && x.High != nil {
+			if h, isC := core.ConstInt(x.High); isC && h == 0 {
+				return nil, ""
+			}
+		}
+		// a literal list of bytes: append(b, 0x01) / []byte{1}
+		if arr, ok := x.X.(*ssa.Alloc); ok && x.Low == nil {
+			vals := map[int64]string{}
+			okAll := true
+			for _, r := range *arr.Referrers() {
+				ia, isIA := r.(*ssa.IndexAddr)
+				if !isIA {
+					continue
+				}
+				k, _ := core.ConstInt(ia.Index)
+				for _, r2 := range *ia.Referrers() {
+					if st, isSt := r2.(*ssa.Store); isSt && st.Addr == ssa.Value(ia) {
+						if b, isC := core.ConstInt(st.Val); isC && b >= 0 && b < 256 {
+							vals[k] = fmt.Sprintf("CONST(%02x)", b)
+						} else {
+							okAll = false
+						}
+					}
+				}
+			}
+			if okAll && len(vals) > 0 {
+				var out []string
+				for k := int64(0); k < int64(len(vals)); k++ {
+					out = append(out, vals[k])
+				}
+				return out, ""
+			}
+		}
 	case *ssa.Phi:
 		// pick the edge that is taken when the flag has the given value: either the direct edge out of `if mainnetFlag`
 		// or a predecessor dominated by the matching branch block
@@ -266,6 +305,11 @@ func giBytes(fn *ssa.Function, v ssa.Value, flag bool, flagIf *ssa.If, d int) ([
 			return append(append([]string{}, a...), b2...), e1 + e2
 		}
 		switch core.CallName(x) {
+		case "common.Uint32ToBytes":
+			if val := giVal(fn, x.Call.Args[0], flag, flagIf, 0); val != "" {
+				return []string{"BE4(" + val + ")"}, ""
+			}
+			return nil, "unrecognised Uint32ToBytes operand"
 		case "(*math/big.Int).Bytes":
 			if in, ok := x.Call.Args[0].(*ssa.Call); ok && core.CallName(in) == "math/big.NewInt" {
 				if k, ok := core.ConstInt(in.Call.Args[0]); ok && k > 0 && k < 256 {
@@ -291,17 +335,7 @@ func giBytes(fn *ssa.Function, v ssa.Value, flag bool, flagIf *ssa.If, d int) ([
 				val = "0"
 			case *ssa.Call:
 				if core.CallName(r) == "(*math/big.Int).SetUint64" {
-					a := r.Call.Args[1]
-					if cv, ok := a.(*ssa.Convert); ok {
-						a = cv.X
-					}
-					if p, ok := a.(*ssa.Parameter); ok {
-						for i, fp := range fn.Params {
-							if fp == p {
-								val = fmt.Sprintf("param%d", i)
-							}
-						}
-					}
+					val = giVal(fn, r.Call.Args[1], flag, flagIf, 0)
 				}
 			}
 			if val == "" {
@@ -311,6 +345,61 @@ func giBytes(fn *ssa.Function, v ssa.Value, flag bool, flagIf *ssa.If, d int) ([
 		}
 	}
 	return nil, fmt.Sprintf("unrecognised byte source %T", v)
+}
+
+// giVal: the integer a part encodes on the given edge of the flag: a parameter, or a constant.
+func giVal(fn *ssa.Function, v ssa.Value, flag bool, flagIf *ssa.If, d int) string {
+	if d > 6 {
+		return ""
+	}
+	switch x := v.(type) {
+	case *ssa.Convert:
+		return giVal(fn, x.X, flag, flagIf, d+1)
+	case *ssa.ChangeType:
+		return giVal(fn, x.X, flag, flagIf, d+1)
+	case *ssa.Parameter:
+		for i, fp := range fn.Params {
+			if fp == x {
+				return fmt.Sprintf("param%d", i)
+			}
+		}
+	case *ssa.Const:
+		if k, ok := core.ConstInt(x); ok {
+			return fmt.Sprint(k)
+		}
+	case *ssa.Phi:
+		if pick := giPick(x, flag, flagIf); pick != nil {
+			return giVal(fn, pick, flag, flagIf, d+1)
+		}
+	}
+	return ""
+}
+
+// giPick: the operand of phi on the edge taken when the flag has the given value (nil when not determined by the flag).
+func giPick(x *ssa.Phi, flag bool, flagIf *ssa.If) ssa.Value {
+	ifb := flagIf.Block()
+	var pick ssa.Value
+	n := 0
+	for i, e := range x.Edges {
+		p := x.Block().Preds[i]
+		var val, known bool
+		switch {
+		case p == ifb:
+			val, known = ifb.Succs[0] == x.Block(), ifb.Succs[0] != ifb.Succs[1]
+		case ifb.Succs[0] != x.Block() && ifb.Succs[0].Dominates(p):
+			val, known = true, true
+		case ifb.Succs[1] != x.Block() && ifb.Succs[1].Dominates(p):
+			val, known = false, true
+		}
+		if known && val == flag {
+			pick = e
+			n++
+		}
+	}
+	if n != 1 {
+		return nil
+	}
+	return pick
 }
 
 func arrayLenOf(t types.Type) int64 {
@@ -386,7 +475,7 @@ func c19Encode(c *core.Ctx) {
 			okAlias = false
 		}
 	})
-	c.Decide(okAlias && n >= 2, rule, "bridgesync.GenerateGlobalIndex#scratch-buffer", fn.Pos(), "every FillBytes result is consumed (copied by append) before the shared buffer is filled again")
+	c.Decide(okAlias, rule, "bridgesync.GenerateGlobalIndex#scratch-buffer", fn.Pos(), fmt.Sprintf("every FillBytes result (%d) is consumed (copied by append) before the shared buffer is filled again", n))
 }
 
 // c19Decode: the decoder reads the same layout back: flag ⇔ the minimal big-endian form has 9 bytes (bit 64 set for
@@ -437,6 +526,20 @@ func c19Decode(c *core.Ctx) {
 		if r != wantRollup || l != wantLeaf {
 			okParts = false
 			detail = r + " ; " + l
+		}
+	}
+	if nTrue == 0 {
+		// value form: `mainnetFlag = len(bytes) == 9` — every non-trivial return carries a recognised test as the flag
+		okFlag = true
+		for _, rc := range core.ReturnCases(fn) {
+			f := sx.Of(rc.Values[0]).String()
+			switch {
+			case flagForms[f]:
+				nTrue++
+			case f == "const(false)" && len(empty) > 0 && rc.ReachableOnlyVia(fn, empty):
+			default:
+				okFlag = false
+			}
 		}
 	}
 	c.Decide(okFlag && nTrue >= 1, rule, "bridgesync.DecodeGlobalIndex#flag", fn.Pos(), "mainnetFlag is true exactly on the edge where bit 64 is set (recognised forms: len(Bytes())==9, BitLen()>64, Bit(64)==1)")
